@@ -20,6 +20,7 @@ import (
 	"fmt"
 	"math"
 	"os"
+	"path/filepath"
 	"regexp"
 	gort "runtime"
 	"sort"
@@ -31,6 +32,7 @@ import (
 	"github.com/php-any/origami/data"
 	"github.com/php-any/origami/node"
 	"github.com/php-any/origami/utils"
+	"verif/lib"
 	"verif/ori"
 )
 
@@ -161,10 +163,19 @@ func pStr(v string) who {
 	return who{id, seq}
 }
 
-// the functions under test: P1 returns its int, P2 its string, P3 its float
-func cP1(a int) int                          { crec.body(1, pInt(a)); return a }
-func cP2(a int, b string) string             { crec.body(2, pInt(a), pStr(b)); return b }
-func cP3(a int, b string, c float64) float64 { crec.body(3, pInt(a), pStr(b), pFloat(c)); return c }
+// the functions under test: P1 returns its int, P2 a string derived from its first argument,
+// P3 a float derived from its second argument
+func cP1(a int) int { crec.body(1, pInt(a)); return a }
+func cP2(a int, b string) string {
+	crec.body(2, pInt(a), pStr(b))
+	w := pInt(a)
+	return encStr(w.id, w.seq)
+}
+func cP3(a int, b string, c float64) float64 {
+	crec.body(3, pInt(a), pStr(b), pFloat(c))
+	w := pStr(b)
+	return encFloat(w.id, w.seq)
+}
 
 // CV17 is the reflected struct; one object is shared by all callers.
 type CV17 struct{ _ int }
@@ -547,4 +558,150 @@ func raceSites(log, repo string) (attributed map[string]string, total int) {
 		}
 	}
 	return
+}
+
+// ---- driver side
+
+type concSummary struct {
+	Configs, Calls, RaceConfigs, RaceReports, RaceAttributed int
+	Unattributed                                             map[string]int
+}
+
+func concConfigs(e *lib.Env) []concCfg {
+	kPlain, kYield, kRace, kRaceYield := e.Pick(400, 4000), e.Pick(100, 1000), e.Pick(150, 1500), e.Pick(40, 400)
+	var out []concCfg
+	for _, path := range []string{"func", "method", "conv"} {
+		for _, mode := range []string{"spawn", "goroutines"} {
+			for i, n := range []int{2, 4, 8} {
+				out = append(out, concCfg{Path: path, Mode: mode, N: n, K: kPlain})
+				if path != "conv" { // ConvertFromIndex only accepts the built-in value types
+					out = append(out, concCfg{Path: path, Mode: mode, N: n, K: kYield, Yield: true, Procs: i % 2}) // GOMAXPROCS 0 (all), 1, 0
+				}
+			}
+			out = append(out, concCfg{Path: path, Mode: mode, N: 4, K: kRace, Race: true})
+			if path != "conv" {
+				out = append(out, concCfg{Path: path, Mode: mode, N: 2, K: kRaceYield, Yield: true, Race: true, Procs: 1})
+				out = append(out, concCfg{Path: path, Mode: mode, N: 8, K: kRaceYield, Yield: true, Race: true})
+			}
+		}
+	}
+	for i := range out {
+		out[i].Seed = e.Seed
+		out[i].Timeout = 900
+	}
+	return out
+}
+
+func runConc(e *lib.Env, self string) concSummary {
+	cfgs := concConfigs(e)
+	sum := concSummary{Unattributed: map[string]int{}}
+	type res struct {
+		out     concOut
+		ok      bool
+		proc    lib.ProcResult
+		raceLog string
+	}
+	results := make([]res, len(cfgs))
+	raceBin := e.Bin("c17-race")
+	_, raceErr := os.Stat(raceBin)
+	lib.ParallelMap(len(cfgs), 4, func(i int) {
+		c := cfgs[i]
+		dir := filepath.Join(e.Scratch, "conc"+strconv.Itoa(i))
+		_ = os.MkdirAll(dir, 0o755)
+		cj, _ := json.Marshal(c)
+		_ = os.WriteFile(filepath.Join(dir, "cfg.json"), cj, 0o644)
+		bin := self
+		var env []string
+		if c.Race {
+			if raceErr != nil {
+				return
+			}
+			bin = raceBin
+			env = []string{"GORACE=halt_on_error=0 exitcode=0 log_path=" + filepath.Join(dir, "race")}
+		}
+		r := lib.RunProc(lib.ProcSpec{Argv: []string{bin, "cworker", filepath.Join(dir, "cfg.json"), filepath.Join(dir, "out.json")},
+			Dir: dir, Env: append(env, "GOTRACEBACK=all"), Timeout: 20 * time.Minute, MaxOut: 1 << 20})
+		results[i].proc = r
+		if b, err := os.ReadFile(filepath.Join(dir, "out.json")); err == nil && json.Unmarshal(b, &results[i].out) == nil {
+			results[i].ok = true
+		}
+		if c.Race {
+			logs, _ := filepath.Glob(filepath.Join(dir, "race.*"))
+			for _, l := range logs {
+				b, _ := os.ReadFile(l)
+				results[i].raceLog += string(b)
+			}
+		}
+	})
+	for i, c := range cfgs {
+		r := results[i]
+		if c.Race && raceErr != nil {
+			e.Inconclusive("concurrent " + c.Name() + ": no -race worker binary (" + raceErr.Error() + ")")
+			continue
+		}
+		replay := func() []byte {
+			b, _ := json.MarshalIndent(map[string]any{"config": c, "script_of_last_caller": r.out.Script,
+				"how": "c17 cworker <this config as cfg.json> out.json (c17-race with GORACE=log_path=… for race configurations)"}, "", " ")
+			return b
+		}
+		switch {
+		case r.proc.TimedOut:
+			e.Inconclusive("concurrent " + c.Name() + ": watchdog")
+			continue
+		case !r.ok:
+			first := r.proc.Stderr
+			if a := strings.Index(first, "\ngoroutine "); a >= 0 {
+				if b := strings.Index(first[a+1:], "\ngoroutine "); b >= 0 {
+					first = first[:a+1+b]
+				}
+			}
+			site := repoRel(lib.PanicSite(first))
+			anchored := false
+			for _, a := range raceAnchors {
+				anchored = anchored || strings.HasPrefix(site, a+":")
+			}
+			msg := ""
+			for _, ln := range strings.Split(r.proc.Stderr, "\n") {
+				if strings.HasPrefix(ln, "panic: ") || strings.HasPrefix(ln, "fatal error: ") {
+					msg = ln
+					break
+				}
+			}
+			if anchored {
+				e.Violation("path="+c.Path+",conc="+c.Mode+",fail=fatal@"+site+",msg="+keyText(msg),
+					"concurrent callers of one registration killed the process: "+msg+" ["+c.Name()+"]", "txt", []byte(c.Name()+"\n\n"+r.proc.Stderr))
+			} else {
+				e.Inconclusive(fmt.Sprintf("concurrent %s: worker died outside the boundary code (exit %d %s at %s): %s", c.Name(), r.proc.Exit, r.proc.Signal, site, firstLine(msg)))
+			}
+			continue
+		}
+		sum.Configs++
+		sum.Calls += r.out.Calls
+		if r.out.Inconcl != "" {
+			e.Inconclusive("concurrent " + c.Name() + ": " + r.out.Inconcl)
+		}
+		for _, v := range r.out.Viol {
+			e.Violation(v.Key, v.What, "json", replay())
+		}
+		if c.Race {
+			sum.RaceConfigs++
+			att, total := raceSites(r.raceLog, e.Repo)
+			sum.RaceReports += total
+			sum.RaceAttributed += len(att)
+			keys := make([]string, 0, len(att))
+			for k := range att {
+				keys = append(keys, k)
+			}
+			sort.Strings(keys)
+			for _, k := range keys {
+				e.Violation("path="+c.Path+",fail=data-race,at="+k,
+					"the race detector reports unsynchronised accesses inside the boundary code when "+strconv.Itoa(c.N)+" callers use one registration: "+k+" ["+c.Name()+"]",
+					"txt", []byte(c.Name()+"\n\nWARNING: DATA RACE"+att[k]))
+			}
+			if total > len(att) {
+				sum.Unattributed[c.Path+"/"+c.Mode] += total - len(att)
+			}
+		}
+	}
+	return sum
 }
